@@ -289,6 +289,7 @@ func runV1Direct(rc runCase) map[string]any {
 	curProbe = nil
 	obs["point"] = dumpPoint(pt)
 	obs["trace"] = rec.events
+	obs["stdout"] = hx(takeStdout())
 	res["obs"] = obs
 	input.PutPoint(pt)
 	return res
